@@ -21,6 +21,7 @@ import ButlerModel.Driver.C06
 import ButlerModel.Driver.C17r
 import ButlerModel.Driver.C06s
 import ButlerModel.Driver.C13f
+import ButlerModel.Driver.C10m
 /-! Line-protocol driver: one request per line on stdin, one reply per line on stdout.
 The first token selects the model; stateful models keep their state in `DState`. -/
 
@@ -62,6 +63,7 @@ def step (st : DState) (line : String) : DState × String :=
   | "path" :: rest => (st, Driver.C09.handlePath rest)
   | "rc" :: rest => let (c, out) := Driver.C17r.handle st.rc rest; ({ st with rc := c }, out)
   | "sp" :: rest => let (c, out) := Driver.C06s.handle st.sp rest; ({ st with sp := c }, out)
+  | "mx" :: rest => (st, Driver.C10m.handle rest)
   | "fr" :: rest => let (c, out) := Driver.C13f.handle st.fr rest; ({ st with fr := c }, out)
   | "xfer" :: rest => let (c, out) := Driver.C19.handle st.xfer rest; ({ st with xfer := c }, out)
   | "crash" :: rest => let (c, out) := Driver.C08.handle st.crash rest; ({ st with crash := c }, out)
